@@ -106,6 +106,13 @@ def _data_specs(rng, kind, K, D, F, N, E):
                         'seed': seed, 'layout': layout,
                         'spread': float(_choice(rng, [0.5, 1.0, 2.0])),
                         'dynamic_range': float(_choice(rng, [0, 0, 0, 6, 12, 19]))}
+        geometry = int(rng.randint(12))
+        if geometry == 0:
+            specs['obs']['unbalanced'] = int(D + 2 + rng.randint(0, D + 1))
+        elif geometry == 1:
+            specs['obs']['duplicates'] = float(_choice(rng, [0.05, 0.3]))
+        elif geometry == 2:
+            specs['obs']['real_valued'] = True
     else:
         specs['obs'] = {'kind': 'rclusters', 'shape': lead + [N, D], 'K': K,
                         'seed': seed, 'layout': layout,
@@ -124,7 +131,10 @@ def _data_specs(rng, kind, K, D, F, N, E):
                         'offset': float(_choice(rng, [0, 0, 0, 0, 1e3, 3e5])),
                         'order': _choice(rng, ['shuffled', 'shuffled', 'sorted'])}
     specs['init'] = {'kind': _choice(rng, ['affiliation', 'affiliation',
-                                           'affiliation_onehotish']),
+                                           'affiliation', 'affiliation',
+                                           'affiliation_onehotish',
+                                           'affiliation_onehotish',
+                                           'affiliation_peaked']),
                      'shape': lead + [K, N],
                      'seed': int(rng.randint(2 ** 31)),
                      'layout': _choice(rng, ['C', 'C', 'F'])}
@@ -185,12 +195,16 @@ def generate(run_seed, tier='quick'):
     if thorough and rng.randint(3) == 0:
         K = int(rng.randint(2, 6))
         D = int(rng.randint(2, 9))
+    if rng.randint(25) == 0:
+        K = int(_choice(rng, [5, 6, 7]))
     if kind == 'gcacgmm':
         F = int(rng.randint(1, 4))
     elif kind == 'gmm':
         F = 0
     else:
         F = int(_choice(rng, [0, 1, 2, 3]))
+        if rng.randint(25) == 0:
+            F = int(rng.randint(4, 10))
     opts = _gen_opts(rng, kind, F)
     if kind == 'gmm' and opts['covariance_type'] == 'full' and rng.randint(2):
         F = int(rng.randint(1, 4))     # only 'full' supports leading axes
@@ -245,7 +259,8 @@ def generate(run_seed, tier='quick'):
         for j, m in enumerate(segs):
             src = 'init' if not seg_ids else seg_ids[-1]
             op = {'op': 'seg', 'src': src, 'iterations': int(m),
-                  'cancel_at': None}
+                  'cancel_at': None,
+                  'via_dict': bool(src != 'init' and rng.randint(4) == 0)}
             if rng.randint(8) == 0:
                 op['cancel_at'] = int(rng.randint(0, m))
             ops.append(op)
@@ -379,6 +394,14 @@ def _foreign(tr, program, op, trainer):
     return outcome
 
 
+def _rebuild_cacgmm(m):
+    from pb_bss.distribution import CACGMM, ComplexAngularCentralGaussian
+    d = m.cacg.to_dict()
+    cacg = ComplexAngularCentralGaussian.from_dict(
+        {k: np.array(v, copy=True) for k, v in d.items()})
+    return CACGMM(weight=np.array(m.weight, copy=True), cacg=cacg)
+
+
 def execute(program):
     models.COPY_INPUTS = True
     kind = program['model']
@@ -435,6 +458,10 @@ def execute(program):
             start, L_prev, guarded = returned[src]
             if kind != 'cacgmm':
                 continue
+            if op.get('via_dict'):
+                # the caller stored the model (to_dict) and rebuilt it
+                start = _rebuild_cacgmm(start)
+                tr.count('probe:continued_from_rebuilt_model')
             tr.count('probe:continuation_boundary_crossed')
             if src != idx - 1 and any(
                     o['op'] == 'seg' for o in ops[src + 1:idx]):
